@@ -216,7 +216,41 @@ def do_op(eng, f, kind, i, L, lim):
                   "cache-content")
 
 
+def run_two(eng, p):
+    """two file objects for the SAME url in one process, created by the real
+    __init__ with different chunk sizes: what the second one returns does
+    not depend on what the first one did"""
+    from vf.dcsym import shadow
+    L = eng.int("L")
+    eng.assume((L >= 0) & (L <= p["Lmax"]))
+
+    class SessionCache:
+        def get_session(self, url):
+            return SymServer(L)
+    ns = shadow(M, np=npshim, range=srange, min=smin, max=smax, os=os,
+                session_cache=SessionCache())
+    for k_, v_ in list(ns.items()):       # module-level state: private
+        if isinstance(v_, (set, dict, list)) and not k_.startswith("__"):
+            ns[k_] = type(v_)()
+    files = []
+    for cs in (p["cs"], p["cs2"]):
+        f = ns["HTTPFile"]("http://verif.invalid/x.rtdc", chunk_size=cs,
+                           keep_chunks=p["keep"])
+        f._len, f._etag = L, "etag"
+        files.append(f)
+    i = 0
+    for f in files:
+        for kind in ("seek_set", "read"):
+            do_op(eng, f, kind, i, L, p["Lmax"] + p["over"])
+            i += 1
+    return "ok"
+
+
 def run_case(name, params):
+    if params.get("two"):
+        eng = Engine(timeout_ms=20000)
+        eng.explore(lambda e: run_two(e, params))
+        return eng.stats()
     cs, keep, Lmax = params["cs"], params["keep"], params["Lmax"]
     ops = params["ops"]
     pre = params.get("pre")  # tuple of cached chunk indices (insertion order)
@@ -271,6 +305,11 @@ def cases(tier, seed):
                                 dict(cs=cs, keep=keep,
                                      Lmax=min(Lmax, 3 * cs + 1), over=over,
                                      ops=list(seq), pre=None)))
+    for cs, cs2 in ((2, 3), (3, 2), (1, 3), (2, 2)):
+        out.append(("two file objects of one url cs=%d,%d" % (cs, cs2),
+                    dict(two=True, cs=cs, cs2=cs2, keep=2, Lmax=7, over=2,
+                         ops=["seek_set", "read", "seek_set", "read"],
+                         pre=None)))
     random.Random(seed).shuffle(out)
     return out
 
@@ -398,6 +437,8 @@ def replay(case, params, v):
     vals = v.get("values") or {}
     if "L" not in vals:
         return {"reproduced": False, "key": "no-model", "detail": str(v)}
+    if params.get("two"):
+        return replay_two(params, vals)
     sc = _scenario(params, vals)
     fails = concrete_run(**sc)
     if not fails:
@@ -405,6 +446,42 @@ def replay(case, params, v):
                 "detail": "scenario %r passes on the real code" % (sc,)}
     return {"reproduced": True, "key": classify(fails[0], sc),
             "detail": fails[0] + " | scenario=%r" % (sc,)}
+
+
+def replay_two(p, vals):
+    HTTPFile = real(M, "HTTPFile")
+    L = int(vals["L"])
+    blob = bytes((7 * i + 3) % 251 for i in range(L))
+    fails = []
+    i = 0
+    for cs in (p["cs"], p["cs2"]):
+        f = HTTPFile("http://verif.invalid/x.rtdc", chunk_size=cs,
+                     keep_chunks=p["keep"])
+        f.session = RFCServer(blob)
+        f._len, f._etag = L, "etag"
+        off = int(vals.get("off%d" % i, 0))
+        size = int(vals.get("size%d" % (i + 1), 1))
+        i += 2
+        try:
+            f.seek(off)
+            data = f.read(size)
+        except Exception as e:
+            fails.append("file object with chunk_size=%d: seek(%d); read(%d) "
+                         "raised %r" % (cs, off, size, e))
+            break
+        exp = blob[off:] if size < 0 else blob[off:off + size]
+        if data != exp:
+            fails.append("second file object of the same url (chunk_size=%d "
+                         "after one with chunk_size=%d): seek(%d); read(%d) "
+                         "on %d bytes returned %r, expected %r" % (
+                             cs, p["cs"], off, size, L, data, exp))
+            break
+    if not fails:
+        return {"reproduced": False, "key": "not-reproduced",
+                "detail": "both file objects return the right bytes"}
+    return {"reproduced": True,
+            "key": "HTTPFile|two-objects-one-url|wrong-bytes",
+            "detail": fails[0]}
 
 
 def validate(tier, seed):
